@@ -85,6 +85,9 @@ func init() {
 		}
 		return s, true
 	}
+	ident := func(in *Interp, fr *frame, a []Value) (Value, bool) { return a[0], true }
+	intrinsics["internal/stringslite.Clone"] = ident
+	intrinsics["strings.Clone"] = ident
 	intrinsics["(*strings.Builder).copyCheck"] = func(in *Interp, fr *frame, a []Value) (Value, bool) { return nil, true }
 	intrinsics["(*strings.Builder).String"] = func(in *Interp, fr *frame, a []Value) (Value, bool) {
 		b := (*a[0].(*Value)).(Struct)
